@@ -712,9 +712,12 @@ def unit(arg):
         # wall clock advancing with every reading, all phases relative to the millisecond boundary; answers come at once
         for fe in ('v2', 'legacy'):
             for mix in ([('register', 0), ('register', 1)], [('register', 0), ('unregister', 1)], [('unregister', 0), ('register', 1), ('register', 0)]):
-                for drift, auto in PHASE_GRID:
+                for (drift, auto), first in itertools.product(PHASE_GRID, ('200', 'nack')):
+                    if first == 'nack' and (not auto or len(mix) != 2):
+                        continue
                     for phase in range(0, 1000, 50):
-                        calls, answers = mix, ['200'] * len(mix)
+                        # (also with the first command refused by a Nack: what it taught about the clock still counts)
+                        calls, answers = mix, [first] + ['200'] * (len(mix) - 1)
                         factory = lambda loop, trace: RegScenario(loop, trace, fe, calls, answers, True, drift, phase, auto)  # noqa
                         script = tuple(f'r{i}' for i in range(len(mix))) + (() if auto else ('a',) * len(mix))
                         run = execute(factory, script, ())
@@ -726,7 +729,8 @@ def unit(arg):
                         acc.observe([fe, mix, drift, phase, auto, run.obs['results']])
                         for sig, what in judge(fe, calls, answers, run, True, drift):
                             acc.violation(sig + '|drifting-clock', what + f' (clock drift {drift}us per reading, phase {phase}us)',
-                                          {'kind': 'phase', 'fe': fe, 'calls': [list(c) for c in calls], 'drift': drift, 'phase': phase, 'auto': auto})
+                                          {'kind': 'phase', 'fe': fe, 'calls': [list(c) for c in calls], 'drift': drift, 'phase': phase, 'auto': auto,
+                                           'answers': list(answers)})
         acc.sample({'phase_sweep': {'drift_us_per_reading,answer_at_once': [list(g) for g in PHASE_GRID], 'phase_us': 'every 50 in 0..950'}})
     elif arg['kind'] == 'typed':
         acc.state_hashes = None
@@ -790,7 +794,7 @@ def replay(case):
         return []
     if case['kind'] == 'phase':
         calls = [tuple(c) for c in case['calls']]
-        answers = ['200'] * len(calls)
+        answers = case.get('answers') or ['200'] * len(calls)
         auto = case.get('auto', False)
         factory = lambda loop, trace: RegScenario(loop, trace, case['fe'], calls, answers, True, case['drift'], case['phase'], auto)  # noqa
         script = tuple(f'r{i}' for i in range(len(calls))) + (() if auto else ('a',) * len(calls))
